@@ -119,9 +119,9 @@ func TestVerif_C05_RoleConflictSolo(t *testing.T) {
 		if known {
 			_ = s.ag.addRemoteSync(s.epCandidate(0, soloEpSpec{Typ: CandidateTypeHost}))
 		}
-		ownRole, otherRole := "controlled", "controlling"
+		otherRole := "controlling"
 		if controlling {
-			ownRole, otherRole = "controlling", "controlled"
+			otherRole = "controlled"
 		}
 		if preConnected {
 			// bring a pair with endpoint 1 to selected first (regular handshake with the opposite role)
@@ -151,137 +151,153 @@ func TestVerif_C05_RoleConflictSolo(t *testing.T) {
 				s.removeInflight(d)
 			}
 		}
-		s.w.mu.Lock()
-		s.w.inflight = nil
-		s.w.mu.Unlock()
-		selBefore := pairKey(s.ag.selectedPair())
-		handlerCallsBefore := handlerCalls.Load()
-		pairsBefore := s.ag.pairSnapshot()
-		from := s.w.logLen()
-		role := ownRole
-		if !sameRole {
-			role = otherRole
-		}
-		to := s.ag.socks[0]
-		// an opposite-role request may carry, behind MESSAGE-INTEGRITY (appended by anybody on the path), a role
-		// attribute claiming the receiver's role: what the request authentically carries is the opposite role
-		var trailing []stun.Setter
-		if !sameRole && rapid.IntRange(0, 2).Draw(rt, "ownRoleBehindIntegrity") == 0 {
+		// one conflict probe; a second one may follow at once (the agent's role may have changed in between)
+		probe := func(round int, controlling, sameRole bool, Tp uint64, useCand bool) {
+			ownRole, otherRole := "controlled", "controlling"
 			if controlling {
-				trailing = []stun.Setter{AttrControlling(^uint64(0))}
-			} else {
-				trailing = []stun.Setter{AttrControlled(0)}
+				ownRole, otherRole = "controlling", "controlled"
 			}
-		}
-		req := simBuildRequest(simReqOpts{
-			username: s.ag.ufrag + ":" + s.peer.ufrag, key: s.ag.pwd, role: role, tiebreaker: Tp,
-			useCand: useCand, priority: 1234, fingerprint: true, trailing: trailing,
-		})
-		s.inject(s.eps[0], to, req.Raw)
-		out := s.w.emittedSince(from, 0)
-		desc := fmt.Sprintf("agent role=%s lite=%v T=%d; request role=%s T'=%d useCandidate=%v knownSource=%v preConnected=%v ownRoleBehindIntegrity=%v", ownRole, lite, T, role, Tp, useCand, known, preConnected, len(trailing) > 0)
-		adjacent := T == Tp || T+1 == Tp || T-1 == Tp
-		boundary := false
-		for _, b := range c05Boundaries {
-			if T == b || Tp == b {
-				boundary = true
+			s.w.mu.Lock()
+			s.w.inflight = nil
+			s.w.mu.Unlock()
+			selBefore := pairKey(s.ag.selectedPair())
+			handlerCallsBefore := handlerCalls.Load()
+			pairsBefore := s.ag.pairSnapshot()
+			from := s.w.logLen()
+			role := ownRole
+			if !sameRole {
+				role = otherRole
 			}
-		}
-		st.Record(vfHashStr(desc), sameRole && (adjacent || boundary), fmt.Sprintf("sameRole:%v", sameRole), fmt.Sprintf("adjacent:%v", adjacent), fmt.Sprintf("lite:%v", lite), fmt.Sprintf("handler:%v", withHandler), fmt.Sprintf("roleBehindIntegrity:%v", len(trailing) > 0))
-		if sameRole && adjacent && st.WantSample() {
-			st.Sample(func() string { return desc })
-		}
-		countClass := func(cl stun.MessageClass) (n int, last *simDgram) {
-			for _, d := range out {
-				if d.msg != nil && d.msg.class == cl {
-					n++
-					last = d
+			to := s.ag.socks[0]
+			// an opposite-role request may carry, behind MESSAGE-INTEGRITY (appended by anybody on the path), a role
+			// attribute claiming the receiver's role: what the request authentically carries is the opposite role
+			var trailing []stun.Setter
+			if !sameRole && rapid.IntRange(0, 2).Draw(rt, "ownRoleBehindIntegrity") == 0 {
+				if controlling {
+					trailing = []stun.Setter{AttrControlling(^uint64(0))}
+				} else {
+					trailing = []stun.Setter{AttrControlled(0)}
 				}
 			}
-
-			return
-		}
-		nSucc, _ := countClass(stun.ClassSuccessResponse)
-		nErr, errD := countClass(stun.ClassErrorResponse)
-		if !sameRole {
-			if nSucc != 1 || nErr != 0 {
-				sig := "C05/opposite-role/not-treated-as-check"
-				if len(trailing) > 0 {
-					// D43 (known finding): attributes behind MESSAGE-INTEGRITY are honoured
-					sig = "C05/opposite-role/role-attribute-behind-message-integrity"
+			req := simBuildRequest(simReqOpts{
+				username: s.ag.ufrag + ":" + s.peer.ufrag, key: s.ag.pwd, role: role, tiebreaker: Tp,
+				useCand: useCand, priority: 1234, fingerprint: true, trailing: trailing,
+			})
+			s.inject(s.eps[0], to, req.Raw)
+			out := s.w.emittedSince(from, 0)
+			desc := fmt.Sprintf("probe %d: agent role=%s lite=%v T=%d; request role=%s T'=%d useCandidate=%v knownSource=%v preConnected=%v ownRoleBehindIntegrity=%v", round, ownRole, lite, T, role, Tp, useCand, known, preConnected, len(trailing) > 0)
+			adjacent := T == Tp || T+1 == Tp || T-1 == Tp
+			boundary := false
+			for _, b := range c05Boundaries {
+				if T == b || Tp == b {
+					boundary = true
 				}
-				st.Fail(rt, sig, "%s: %d success / %d error responses emitted, want 1/0", desc, nSucc, nErr)
 			}
-
-			return
-		}
-		keep := (controlling && T >= Tp) || (!controlling && T < Tp)
-		if nSucc != 0 {
-			st.Fail(rt, "C05/conflict/success-response-sent", "%s: a success response was sent for a role-conflicting request", desc)
-		}
-		if withHandler {
-			if n := handlerCallsBefore; handlerCalls.Load() != n {
-				st.Fail(rt, "C05/conflict/shown-to-binding-request-handler", "%s: the application handler was called for a role-conflicting request", desc)
+			st.Record(vfHashStr(desc), sameRole && (adjacent || boundary), fmt.Sprintf("sameRole:%v", sameRole), fmt.Sprintf("adjacent:%v", adjacent), fmt.Sprintf("lite:%v", lite), fmt.Sprintf("handler:%v", withHandler), fmt.Sprintf("roleBehindIntegrity:%v", len(trailing) > 0))
+			if sameRole && adjacent && st.WantSample() {
+				st.Sample(func() string { return desc })
 			}
-		}
-		if sel := pairKey(s.ag.selectedPair()); sel != selBefore {
-			st.Fail(rt, "C05/conflict/selection-changed", "%s: selection %q -> %q", desc, selBefore, sel)
-		}
-		for id, before := range pairsBefore {
-			if after, ok := s.ag.pairSnapshot()[id]; !ok || after != before {
-				st.Fail(rt, "C05/conflict/pair-state-changed", "%s: pair %d %+v -> %+v", desc, id, before, after)
-			}
-		}
-		if keep {
-			if nErr != 1 || len(out) != 1 {
-				st.Fail(rt, "C05/conflict/keep-without-487", "%s: expected exactly one datagram (487) but %d datagrams / %d error responses left", desc, len(out), nErr)
+			countClass := func(cl stun.MessageClass) (n int, last *simDgram) {
+				for _, d := range out {
+					if d.msg != nil && d.msg.class == cl {
+						n++
+						last = d
+					}
+				}
 
 				return
 			}
-			m := &stun.Message{Raw: append([]byte{}, errD.data...)}
-			_ = m.Decode()
-			if errD.msg.errCode != 487 || errD.msg.txid != req.TransactionID || errD.dst != s.eps[0].pub ||
-				stun.MessageIntegrity([]byte(s.ag.pwd)).Check(m) != nil {
-				st.Fail(rt, "C05/conflict/bad-487", "%s: error response code=%d txidMatch=%v dst=%s integrityOK=%v", desc,
-					errD.msg.errCode, errD.msg.txid == req.TransactionID, errD.dst, stun.MessageIntegrity([]byte(s.ag.pwd)).Check(m) == nil)
+			nSucc, _ := countClass(stun.ClassSuccessResponse)
+			nErr, errD := countClass(stun.ClassErrorResponse)
+			if !sameRole {
+				if nSucc != 1 || nErr != 0 {
+					sig := "C05/opposite-role/not-treated-as-check"
+					if len(trailing) > 0 {
+						// D43 (known finding): attributes behind MESSAGE-INTEGRITY are honoured
+						sig = "C05/opposite-role/role-attribute-behind-message-integrity"
+					}
+					st.Fail(rt, sig, "%s: %d success / %d error responses emitted, want 1/0", desc, nSucc, nErr)
+				}
+
+				return
 			}
-		} else if len(out) != 0 {
-			st.Fail(rt, "C05/conflict/switch-with-answer", "%s: receiver must switch silently but emitted %d datagram(s): %v", desc, len(out), out)
-		}
-		// the role attribute of the next emitted request
-		from = s.w.logLen()
-		s.ag.tick()
-		wantRole := ownRole
-		if !keep {
-			wantRole = otherRole
-		}
-		seen := false
-		for _, d := range s.w.emittedSince(from, 0) {
-			if d.msg == nil || d.msg.class != stun.ClassRequest {
-				continue
+			keep := (controlling && T >= Tp) || (!controlling && T < Tp)
+			if nSucc != 0 {
+				st.Fail(rt, "C05/conflict/success-response-sent", "%s: a success response was sent for a role-conflicting request", desc)
 			}
-			seen = true
-			if d.msg.role != wantRole {
+			if withHandler {
+				if n := handlerCallsBefore; handlerCalls.Load() != n {
+					st.Fail(rt, "C05/conflict/shown-to-binding-request-handler", "%s: the application handler was called for a role-conflicting request", desc)
+				}
+			}
+			if sel := pairKey(s.ag.selectedPair()); sel != selBefore {
+				st.Fail(rt, "C05/conflict/selection-changed", "%s: selection %q -> %q", desc, selBefore, sel)
+			}
+			for id, before := range pairsBefore {
+				if after, ok := s.ag.pairSnapshot()[id]; !ok || after != before {
+					st.Fail(rt, "C05/conflict/pair-state-changed", "%s: pair %d %+v -> %+v", desc, id, before, after)
+				}
+			}
+			if keep {
+				if nErr != 1 || len(out) != 1 {
+					st.Fail(rt, "C05/conflict/keep-without-487", "%s: expected exactly one datagram (487) but %d datagrams / %d error responses left", desc, len(out), nErr)
+
+					return
+				}
+				m := &stun.Message{Raw: append([]byte{}, errD.data...)}
+				_ = m.Decode()
+				if errD.msg.errCode != 487 || errD.msg.txid != req.TransactionID || errD.dst != s.eps[0].pub ||
+					stun.MessageIntegrity([]byte(s.ag.pwd)).Check(m) != nil {
+					st.Fail(rt, "C05/conflict/bad-487", "%s: error response code=%d txidMatch=%v dst=%s integrityOK=%v", desc,
+						errD.msg.errCode, errD.msg.txid == req.TransactionID, errD.dst, stun.MessageIntegrity([]byte(s.ag.pwd)).Check(m) == nil)
+				}
+			} else if len(out) != 0 {
+				st.Fail(rt, "C05/conflict/switch-with-answer", "%s: receiver must switch silently but emitted %d datagram(s): %v", desc, len(out), out)
+			}
+			// the role attribute of the next emitted request
+			from = s.w.logLen()
+			s.ag.tick()
+			wantRole := ownRole
+			if !keep {
+				wantRole = otherRole
+			}
+			seen := false
+			for _, d := range s.w.emittedSince(from, 0) {
+				if d.msg == nil || d.msg.class != stun.ClassRequest {
+					continue
+				}
+				seen = true
+				if d.msg.role != wantRole {
+					sig := "C05/conflict/role-after-keep"
+					if !keep {
+						sig = "C05/conflict/role-after-switch"
+					}
+					st.Fail(rt, sig, "%s: next request carries role %q, want %q", desc, d.msg.role, wantRole)
+				}
+				if d.msg.tiebreaker != T {
+					st.Fail(rt, "C05/conflict/tiebreaker-changed", "%s: next request carries tie-breaker %d, want %d", desc, d.msg.tiebreaker, T)
+				}
+			}
+			if !seen {
+				st.Label("no-request-after-conflict")
+			}
+			// the role itself (a lite agent in the controlled role sends no requests that would show it)
+			if got := s.ag.a.isControlling.Load(); got != (wantRole == "controlling") {
 				sig := "C05/conflict/role-after-keep"
 				if !keep {
 					sig = "C05/conflict/role-after-switch"
 				}
-				st.Fail(rt, sig, "%s: next request carries role %q, want %q", desc, d.msg.role, wantRole)
-			}
-			if d.msg.tiebreaker != T {
-				st.Fail(rt, "C05/conflict/tiebreaker-changed", "%s: next request carries tie-breaker %d, want %d", desc, d.msg.tiebreaker, T)
+				st.Fail(rt, sig, "%s: agent is controlling=%v after the conflict, want role %s", desc, got, wantRole)
 			}
 		}
-		if !seen {
-			st.Label("no-request-after-conflict")
-		}
-		// the role itself (a lite agent in the controlled role sends no requests that would show it)
-		if got := s.ag.a.isControlling.Load(); got != (wantRole == "controlling") {
-			sig := "C05/conflict/role-after-keep"
-			if !keep {
-				sig = "C05/conflict/role-after-switch"
+		probe(1, controlling, sameRole, Tp, useCand)
+		if rapid.IntRange(0, 2).Draw(rt, "secondConflictAtOnce") == 0 {
+			ties2 := c05TiePair().Draw(rt, "ties2")
+			Tp2 := ties2[1]
+			if ties2[0] != T { // keep the relation of the drawn pair towards the agent's tie-breaker
+				Tp2 = T + (ties2[1] - ties2[0])
 			}
-			st.Fail(rt, sig, "%s: agent is controlling=%v after the conflict, want role %s", desc, got, wantRole)
+			probe(2, s.ag.a.isControlling.Load(), rapid.IntRange(0, 4).Draw(rt, "sameRole2") != 0, Tp2, rapid.Bool().Draw(rt, "useCandidate2"))
 		}
 	})
 }
